@@ -447,7 +447,7 @@ class Machine:
                                                  lay, site))
         elif what == "pos_values":
             m = rs.randint(3, 6)
-            if not isinstance(kr._cond_err, str) and np.size(kr._cond_err) > 1:
+            if np.size(kr.cond_err) > 1:
                 m = n  # a vector of measurement errors fixes the number of conditions
             kr.set_condition(
                 cond_pos=self.alloc("cond_pos", self._vals(rs, (self.dim, m), -3, 3), lay, site),
